@@ -29,7 +29,7 @@ from .c07 import FULL, SMALL, TINY
 TYPES = {'Foo': A.Foo, 'FooBar': A.FooBar, 'Foo_': A.Foo_, 'BFoo': B.Foo, 'JFoo': A.JFoo, 'P2': A.P2,
          'Leaf': A.Leaf, 'BLeaf': B.Leaf, 'NoCacheT': A.NoCacheT, 'PFoo': A.PFoo, 'SFoo': A.SFoo}
 OUTER = ('Foo', 'FooBar', 'Foo_', 'BFoo', 'JFoo', 'P2', 'PFoo', 'NoCacheT', 'SFoo')
-QUERY_TYPES = (A.Foo, A.FooBar, A.Foo_, B.Foo, A.JFoo, A.P2, A.PFoo, A.Leaf, B.Leaf, A.NoCacheT, A.SFoo, A.DFoo)
+QUERY_TYPES = (A.Foo, A.FooBar, A.Foo_, B.Foo, A.JFoo, A.P2, A.PFoo, A.Leaf, B.Leaf, A.NoCacheT, A.SFoo, A.DFoo, A.SubFoo, A.ShFit, A.ShFitAll)
 
 
 class AltPickle(PickleCache):
@@ -61,6 +61,18 @@ def run_group(args):
         tasks = [TYPES[tn](p=build(tree, types=TYPES)) for tn, tree in group]
         # a parameter whose default is not None: explicitly None, left at the default, nested
         tasks += [A.DFoo(p=len(group), q=None), A.DFoo(p=len(group)), A.Foo(p=[A.DFoo(p='n', q=None)])]
+        # dict parameters whose keys are not in alphabetical order (top level, nested, inside a nested task)
+        zd = {'zeta': 1, 'alpha': [2, {'y': None, 'b': 'a'}]}
+        tasks += [A.Foo(p=dict(zd), q='zd'), A.JFoo(p=[dict(zd)]), A.Foo(p=A.Leaf(dict(zd)), q='zd')]
+        # one parent holding nested tasks that compare equal but are spelled differently, and one nested
+        # task object occurring several times (shared, and as separate equal objects)
+        shared = A.Leaf('shared')
+        mid = A.Foo(p=shared, q='mid')
+        tasks += [A.Foo(p=[A.Leaf(1), A.Leaf(1.0)], q={'k': A.Leaf(True)}), A.Foo(p=[shared, shared], q={'k': shared}),
+                  A.FooBar(p=[A.Leaf('sep'), A.Leaf('sep')], q=A.Leaf('sep')), A.Foo(p=[mid, mid], q=[mid, shared])]
+        # a derived task type adding a parameter (entries differing in the added parameter only), and
+        # prefix-named types configured with one shared cache object
+        tasks += [A.SubFoo(p=1, r=0), A.SubFoo(p=1, r=1), A.SubFoo(p=1, q=A.Leaf('sub'), r=[A.Leaf('sub')]), A.ShFit(p=1), A.ShFitAll(p=1), A.ShFitAll(p=A.ShFit(p=2))]
         WORLD.reset(epoch=1)
         lab = labtech.Lab(storage=storage, runner_backend='serial', notebook=False)
         # every other group runs under a frozen clock: start at the epoch boundary, duration exactly zero
@@ -105,6 +117,19 @@ def run_group(args):
 
         def bad(key, msg):
             out.append((key, f'[{storage_kind}] {msg}', size))
+        # what a save killed while metadata.json (the last file written) was part-way out leaves behind:
+        # a non-empty, cut-off metadata file.  Such an entry is simply not cached.
+        partial = A.Foo(p='__partial__', q=[A.Leaf('x' * 50)])
+        donor = next(x for x in expected.values() if type(x) is A.Foo)
+        with storage.file_handle(donor.cache_key, 'metadata.json', mode='r') as fh:
+            full_text = fh.read()
+        with storage.file_handle(partial.cache_key, 'metadata.json', mode='w') as fh:
+            fh.write(full_text[:max(1, len(full_text) // 2)])
+        try:
+            if lab.is_cached(partial):
+                bad('partial-metadata-reported-cached', 'an entry whose metadata.json is cut off is reported as cached')
+        except BaseException as e:  # noqa
+            bad(f'is_cached-raised:{type(e).__name__}', f'is_cached() of an entry with a cut-off metadata.json raised {type(e).__name__}: {e}')
         got_by_type = {}
         for qt in QUERY_TYPES:
             try:
